@@ -112,6 +112,7 @@ Theorem oracle_sound c :
   | CObs obs => all_same obs
   | CPool _ data got_len seen => got_len = 0%Z /\ seen = data
   | CReg obs => reg_consistent obs
+  | CRegApply obs reached => reg_consistent obs /\ all_reached reached
   end.
 Proof.
   destruct c; cbn [oracle].
@@ -119,6 +120,8 @@ Proof.
   - apply all_same_b_sound.
   - rewrite andb_true_iff, Z.eqb_eq, eqb_listN_spec. tauto.
   - apply same_name_same_logger_sound.
+  - rewrite andb_true_iff, same_name_same_logger_sound. unfold all_reached.
+    rewrite forallb_forall, Forall_forall. tauto.
 Qed.
 
 (* ---------------------------------------------------------------------------------------- *)
